@@ -325,6 +325,14 @@ func VH_Conservation() {
 				}
 				nSock++
 				r = vRec{typ: auparse.AUDIT_SOCKADDR, data: map[string]string{"family": "ipv4", "addr": val(), "port": val()}}
+				switch vChoose("sockfam", 4) {
+				case 1:
+					r.data = map[string]string{"family": "ipv6", "addr": val(), "port": val(), "flow": val()}
+				case 2:
+					r.data = map[string]string{"family": "unix", "path": val()}
+				case 3:
+					r.data = map[string]string{"family": "netlink", "saddr": val()}
+				}
 			case 3:
 				r = vRec{typ: vNeutralTypes[vChoose("neutral", len(vNeutralTypes))], data: map[string]string{"cwd": val(), "proctitle": val(), "y" + strconv.Itoa(i): val()}}
 				if vChoose("collide", 2) == 1 {
@@ -875,4 +883,44 @@ func VH_ResolveIsolation() {
 	}
 	ResolveIDsFromCaches(e, users, groups)
 	check(e, "C15/user-and-group-names-mixed-up")
+}
+
+// ---- C15: groups in which one record cannot be decoded ------------------------------------------
+
+func init() { vEntries["VH_CoalesceBroken"] = VH_CoalesceBroken }
+
+// VH_CoalesceBroken: any one record of a group (the SYSCALL record included) is replaced by a record
+// of the same type whose Data() fails, or by one with no fields at all: CoalesceMessages returns
+// (event, nil) or (nil, error), never panics; messages are left as they were.
+func VH_CoalesceBroken() {
+	vInstallTableImage()
+	gi := vChoose("group", len(vGroups))
+	msgs := vParseGroup(vGroups[gi], "77")
+	vAssert(msgs != nil, "C15/group-does-not-parse")
+	if msgs == nil {
+		return
+	}
+	i := vChoose("broken", len(msgs))
+	switch vChoose("how", 3) {
+	case 0:
+		msgs[i] = auparse.VNewMessage(msgs[i].RecordType, 77, 1490137971, nil, nil, errors.New("broken record"))
+	case 1:
+		msgs[i] = auparse.VNewMessage(msgs[i].RecordType, 77, 1490137971, map[string]string{}, nil, nil)
+	case 2:
+		if m, err := auparse.Parse(msgs[i].RecordType, "audit(1490137971.011:77): arch=zz syscall=x a0= saddr=0 argc=z mode=9 \x01"); err == nil {
+			msgs[i] = m
+		}
+	}
+	// a second broken record somewhere else
+	if j := vChoose("broken2", len(msgs)+1); j < len(msgs) && j != i {
+		msgs[j] = auparse.VNewMessage(msgs[j].RecordType, 77, 1490137971, nil, nil, errors.New("broken record"))
+	}
+	ev, err := CoalesceMessages(msgs)
+	vAssert((err != nil) == (ev == nil), "C15/error-and-event-disagree")
+	d1 := vEventDigest(ev)
+	if ev != nil {
+		ResolveIDsFromCaches(ev, NewUserCache(1000000000*60), NewGroupCache(1000000000*60))
+	}
+	ev2, err2 := CoalesceMessages(msgs)
+	vAssert((err == nil) == (err2 == nil) && vEventDigest(ev2) == d1, "C15/second-coalesce-gives-a-different-event")
 }
